@@ -20,6 +20,7 @@ import (
 	"strings"
 	"sync"
 	"sync/atomic"
+	"syscall"
 	"testing"
 	"time"
 )
@@ -208,17 +209,20 @@ type hrAckMsg struct {
 }
 
 type hrWorld struct {
-	name      string
-	np        int
-	path      string
-	rebuild   time.Duration
-	oldL      *Listener
-	newL      *Listener
-	oldLn     *hrCountLn
-	newLn     *hrCountLn
-	sm        *SessionManager
-	lcfg      func() *ListenerConfig
-	intercept bool
+	name         string
+	np           int
+	path         string
+	rebuild      time.Duration
+	oldL         *Listener
+	newL         *Listener
+	oldLn        *hrCountLn
+	newLn        *hrCountLn
+	prevNew      []*Listener
+	prevNewCount int64
+	newGone      bool
+	sm           *SessionManager
+	lcfg         func() *ListenerConfig
+	intercept    bool
 
 	mu    sync.Mutex
 	cli   map[int]*Session
@@ -452,7 +456,7 @@ func (w *hrWorld) bindServer(id int, d time.Duration) error {
 	deadline := time.Now().Add(d)
 	for {
 		var found *Session
-		for _, l := range []*Listener{w.oldL, w.newL} {
+		for _, l := range w.listeners() {
 			if l == nil {
 				continue
 			}
@@ -504,7 +508,7 @@ func (w *hrWorld) srvOfLocked(id int) string {
 	if s.listener == w.oldL {
 		return "old"
 	}
-	if s.listener == w.newL {
+	if s.listener != nil && s.listener != w.oldL && hrLookupL(s.listener) == w {
 		return "new"
 	}
 	return "?"
@@ -536,6 +540,9 @@ func (w *hrWorld) destroy() {
 	if w.oldL != nil {
 		w.oldL.Close()
 	}
+	for _, l := range w.prevNew {
+		l.Close()
+	}
 	if w.newL != nil {
 		w.newL.Close()
 	}
@@ -543,6 +550,9 @@ func (w *hrWorld) destroy() {
 	delete(hrBySM, w.sm)
 	delete(hrByL, w.oldL)
 	delete(hrByL, w.newL)
+	for _, l := range w.prevNew {
+		delete(hrByL, l)
+	}
 	hrReg.Unlock()
 	os.Remove(w.path)
 }
@@ -1147,10 +1157,10 @@ func (w *hrWorld) slipAt(t time.Time) bool {
 		if x == nil {
 			continue
 		}
-		if x.LState == "hot" && !w.lHotSince.IsZero() && t.Sub(w.lHotSince) > 1900*time.Millisecond {
+		if x.LState == "hot" && !w.lHotSince.IsZero() && t.Sub(w.lHotSince) > 1700*time.Millisecond {
 			return true
 		}
-		if x.MState == "hot" && !w.mHotSince.IsZero() && t.Sub(w.mHotSince) > 1900*time.Millisecond {
+		if x.MState == "hot" && !w.mHotSince.IsZero() && t.Sub(w.mHotSince) > 1700*time.Millisecond {
 			return true
 		}
 	}
@@ -1261,7 +1271,7 @@ func (w *hrWorld) orphanOracle() string {
 	var srvOpen, cliOpen int
 	ok := w.waitFor(4*time.Second, func() bool {
 		srvOpen, cliOpen = 0, 0
-		for _, l := range []*Listener{w.oldL, w.newL} {
+		for _, l := range w.listeners() {
 			if l == nil {
 				continue
 			}
@@ -1315,7 +1325,7 @@ func (w *hrWorld) afterCloseOracle() string {
 			}
 		}
 		w.sm.RUnlock()
-		for _, l := range []*Listener{w.oldL, w.newL} {
+		for _, l := range w.listeners() {
 			if l == nil {
 				continue
 			}
@@ -1335,11 +1345,30 @@ func (w *hrWorld) afterCloseOracle() string {
 	return fmt.Sprintf("SessionManager.Close has returned but sessions of the manager are still open 4 s later: client side %v; %d open on the server side against %d open reserve sessions", open, srvOpen, resOpen)
 }
 
+// every listener this world has started (the old one, the current new one, earlier new ones that have been closed)
+func (w *hrWorld) listeners() []*Listener {
+	out := []*Listener{w.oldL}
+	out = append(out, w.prevNew...)
+	if w.newL != nil {
+		out = append(out, w.newL)
+	}
+	return out
+}
+
+// a server is accepting on the listen path
+func (w *hrWorld) reachable() bool {
+	if w.newL != nil {
+		return !w.newGone
+	}
+	return !w.oldClosed
+}
+
 func (w *hrWorld) sessCount() int {
 	n := int(atomic.LoadInt64(&w.oldLn.n))
 	if w.newLn != nil {
 		n += int(atomic.LoadInt64(&w.newLn.n))
 	}
+	n += int(atomic.LoadInt64(&w.prevNewCount))
 	return n
 }
 
@@ -1349,7 +1378,7 @@ func hrLabel(s hrStep) string {
 		return fmt.Sprintf("%s(%d)", s.A, s.E)
 	case "InjectHR", "InjectAck":
 		return fmt.Sprintf("%s(%d,%d)", s.A, s.I, s.E)
-	case "LAck", "MOnHR", "SessDies", "WPick", "WLost", "WRebuild", "WExit":
+	case "LAck", "MOnHR", "SessDies", "WPick", "WLost", "WRebuild", "WRetry", "WExit":
 		return fmt.Sprintf("%s(%d)", s.A, s.I)
 	}
 	return s.A
@@ -1440,7 +1469,32 @@ func hrRunScenario(sc *hrScenario, job *hrJob) (out hrOutcome) {
 					drifted(si, "cannot start the new listener: "+err.Error())
 					return
 				}
+				if w.newL != nil {
+					w.prevNew = append(w.prevNew, w.newL)
+					atomic.AddInt64(&w.prevNewCount, atomic.LoadInt64(&w.newLn.n))
+				}
 				w.newL, w.newLn = l, cl
+				w.newGone = false
+			case "NewServerExits":
+				// the new server stops accepting; the socket file stays (SetUnlinkOnClose(false)): connects are refused
+				w.killBegin()
+				w.newGone = true
+				if w.newL != nil {
+					w.newL.Close()
+					for id, c := range w.cli {
+						if w.srvOf(id) == "new" {
+							cc := c
+							w.waitFor(hrWaitLimit, func() bool { return cc.IsClosed() })
+						}
+					}
+				}
+				w.killEnd()
+			case "WRetry":
+				// at least one reconnect attempt of this loss fails
+				p := st.I - 1
+				if !w.waitEv(hrWaitLimit, func(e hrEv) bool { return e.Ev == "WFail" && int(e.A) == p }) {
+					time.Sleep(2*rebuild + 60*time.Millisecond)
+				}
 			case "OldServerExits":
 				w.killBegin()
 				w.oldClosed = true
@@ -1876,7 +1930,7 @@ func hrRunScenario(sc *hrScenario, job *hrJob) (out hrOutcome) {
 		return
 	}
 	// C17: with a server reachable and the manager open every pool serves again after a few rebuild intervals
-	if w.closeDone == nil && (!w.oldClosed || w.newL != nil) && atomic.LoadInt32(&w.abort) == 0 {
+	if w.closeDone == nil && w.reachable() && atomic.LoadInt32(&w.abort) == 0 {
 		hrObserveHeal(w, sc, job, &out)
 	}
 	if atomic.LoadInt32(&w.abort) == 0 {
@@ -2250,7 +2304,7 @@ func hrRunFree(job *hrJob, res *hrResult) {
 				w.sm.RLock()
 				c := w.sm.pools[op.A].Session()
 				w.sm.RUnlock()
-				for _, l := range []*Listener{w.oldL, w.newL} {
+				for _, l := range w.listeners() {
 					if l == nil {
 						continue
 					}
@@ -2469,4 +2523,100 @@ func TestVS_HotRestartGate(t *testing.T) {
 		res.Detail = "GetStream did not return within 20 s after the session was torn down"
 		res.Reproduced = true
 	}
+}
+
+// ---------------------------------------------------------------- staged: HotRestart notifying a session whose peer is gone
+
+// Witness of the finding "hotrestart-write-deadlock" (own process: on the unrepaired code the listener's locks and soon the
+// shared event loop are blocked for ever). The client end of one session is shut down while the event loop is stalled
+// (dispatcher lock held by the test), so the server has not handled the hang-up when Listener.HotRestart writes the
+// notification: the write fails (EPIPE), writeEventData -> exitErr -> Session.Close -> sessionCallback.OnShutdown ->
+// sessions.removeShutdownSession wants sessions.sessionMu, which HotRestart itself holds.
+func TestVS_HotRestartDeadlock(t *testing.T) {
+	if os.Getenv("VS_IN_JOB") == "" {
+		t.Skip("VS_IN_JOB not set")
+	}
+	type dlResult struct {
+		Reproduced bool   `json:"reproduced"`
+		Detail     string `json:"detail"`
+		Note       string `json:"note"`
+	}
+	var res dlResult
+	write := func() {
+		b, _ := json.Marshal(res)
+		_ = os.WriteFile(os.Getenv("VS_OUT"), b, 0o644)
+	}
+	defer write()
+	w, err := hrNewWorld("deadlock", 2, 60*time.Millisecond, true)
+	if err != nil {
+		res.Note = "cannot set up: " + err.Error()
+		return
+	}
+	if err, _ := w.probePool(0, "warm"); err != nil {
+		res.Note = "warm-up round trip failed: " + err.Error()
+		w.destroy()
+		return
+	}
+	d, ok := defaultDispatcher.(*epollDispatcher)
+	if !ok {
+		res.Note = "unexpected dispatcher type"
+		w.destroy()
+		return
+	}
+	// stall the event loop, then kill the client end of session 1: the server cannot have noticed
+	d.lock.Lock()
+	stalled := true
+	unstall := func() {
+		if stalled {
+			stalled = false
+			d.lock.Unlock()
+		}
+	}
+	defer unstall()
+	if err := syscall.Shutdown(w.cli[1].connFd, syscall.SHUT_RDWR); err != nil {
+		res.Note = "shutdown of the client fd failed: " + err.Error()
+		return
+	}
+	ret := make(chan error, 1)
+	go func() { ret <- w.oldL.HotRestart(7) }()
+	returned := false
+	var hrErr error
+	select {
+	case hrErr = <-ret:
+		returned = true
+	case <-time.After(4 * time.Second):
+	}
+	unstall()
+	if !returned {
+		select {
+		case hrErr = <-ret:
+			returned = true
+		case <-time.After(4 * time.Second):
+		}
+	}
+	if !returned {
+		muFree := w.oldL.mu.TryLock()
+		if muFree {
+			w.oldL.mu.Unlock()
+		}
+		smFree := w.oldL.sessions.sessionMu.TryLock()
+		if smFree {
+			w.oldL.sessions.sessionMu.Unlock()
+		}
+		res.Reproduced = true
+		res.Detail = fmt.Sprintf("Listener.HotRestart(7) with the client end of one session already closed (hang-up not yet handled by the server) has not returned after 8 s; Listener.mu free=%v, sessions.sessionMu free=%v, server session closed=%v: the failing notification write closes the session inside the loop and removeShutdownSession waits for sessionMu held by HotRestart itself", muFree, smFree, w.srv[1].IsClosed())
+		return // no clean-up possible: every path through the listener blocks
+	}
+	// repaired code: the restart must end (by acknowledgement of the live session or by the time-out) and the listener must close
+	left := w.waitFor(hrLeaveLimit, func() bool { return w.oldL.IsHotRestartDone() })
+	closed := make(chan struct{})
+	go func() { w.destroy(); close(closed) }()
+	closeOK := true
+	select {
+	case <-closed:
+	case <-time.After(hrLeaveLimit):
+		closeOK = false
+	}
+	res.Detail = fmt.Sprintf("HotRestart returned %v; left the hot-restart state within %v: %v; listener and manager closed: %v; dead session closed: %v", hrErr, hrLeaveLimit, left, closeOK, w.srv[1].IsClosed())
+	res.Reproduced = !left || !closeOK
 }
